@@ -106,6 +106,7 @@ func init() {
 type c16State struct {
 	calls    int
 	prevOut  []byte
+	prevNil  []byte
 	prevWant []byte
 	prevDesc string
 }
@@ -132,6 +133,17 @@ func c16Case(w *rt.W, st *c16State, f *c16Formatter, vi, flag int, prefix []byte
 		return
 	}
 	refCopy := append([]byte(nil), refOut...)
+	if st.prevNil != nil { // fill the spare capacity of the previous nil-buffer result: it belongs to the caller, not to later results
+		x := st.prevNil[:cap(st.prevNil)]
+		for i := len(st.prevNil); i < len(x); i++ {
+			x[i] = '#'
+		}
+		if !bytes.Equal(refOut, refCopy) {
+			fail("nil-buffer-results-share-capacity", string(refOut), string(refCopy))
+			refOut = append([]byte(nil), refCopy...)
+		}
+	}
+	st.prevNil = refOut
 	const guard = 8
 	backing := make([]byte, len(prefix)+spare+guard)
 	copy(backing, prefix)
